@@ -8,6 +8,8 @@ import (
 	"math/rand"
 	"os"
 	"path/filepath"
+	"runtime"
+	"strings"
 	"sync"
 	"time"
 
@@ -15,6 +17,7 @@ import (
 
 	"verif/harness/lab/crlgen"
 	"verif/harness/lab/gen"
+	"verif/harness/lab/l2"
 	"verif/harness/lab/origin"
 	"verif/harness/lab/pki"
 	"verif/harness/lab/report"
@@ -145,6 +148,22 @@ func main() {
 		run.Finish(50)
 		return
 	}
+	l2.InstallHooks()
+	var ymu sync.Mutex
+	yr := rand.New(rand.NewSource(run.Seed + int64(si)))
+	l2.SetExtraHook(func(name string) {
+		if name != "map.update.mid" && name != "repo.swap.locked" && name != "repo.check.rlocked" && !strings.HasPrefix(name, "leveldb.update") {
+			return
+		}
+		ymu.Lock()
+		r := yr.Intn(8)
+		ymu.Unlock()
+		if r < 3 {
+			runtime.Gosched()
+		} else if r < 5 {
+			time.Sleep(time.Duration(30*r) * time.Microsecond)
+		}
+	})
 	jobs := make(chan caseSpec, len(cases))
 	for _, c := range cases {
 		if f := os.Getenv("VERIF_ONLY_SOURCE"); f != "" && c.Source != f {
@@ -329,6 +348,44 @@ func runCase(run *report.Run, w *world.World, c caseSpec, scratch, intPEM, other
 			cls = "last-1"
 		}
 		run.NonTrivial(c.desc() + " pos=" + cls)
+	}
+	// listed certificates must also be rejected while a refresh of the same CRL is in progress
+	// (the swap of the store is the critical window; seeded yields at the hook points widen it)
+	if c.N <= 1000 && c.ID%3 == 0 {
+		crlChk, _ := v.Val.VerifCheckers()
+		if crlChk != nil {
+			var chains [][]*x509.Certificate
+			for _, p := range pos[:min(3, len(pos))] {
+				chains = append(chains, w.Leaf(entries[p].Serial, cdp, aia))
+			}
+			done := make(chan struct{})
+			go func() {
+				defer close(done)
+				for k := 0; k < 8; k++ {
+					crlChk.VerifUpdateCRLs(true)
+				}
+			}()
+			during := 0
+		loop:
+			for {
+				select {
+				case <-done:
+					break loop
+				default:
+				}
+				for _, ch := range chains {
+					err := v.Verify(ch)
+					during++
+					run.Eval(1)
+					if err == nil {
+						run.Violation(fmt.Sprintf("listed-accepted-during-refresh.%s.%s", c.Source, c.Storage), fmt.Sprintf("listed serial %s accepted while a refresh of its CRL was in progress | %s", ch[0].SerialNumber, c.desc()), rp(map[string]any{"serial": ch[0].SerialNumber.String()}))
+						break loop
+					}
+				}
+			}
+			<-done
+			run.Count("listed_probes_during_refresh", int64(during))
+		}
 	}
 	if c.ID%40 == 0 {
 		run.Sample(map[string]any{"case": c.desc(), "probed_positions": len(pos), "first_listed_serial": entries[0].Serial.String(), "crl_bytes": len(data)})
